@@ -51,6 +51,11 @@ CHECKS = {
    "For 16 element types and slices built from raw generated bits, the bulk body must equal the serde body byte-for-byte (len>0), each decoder must read the other encoder's output bit-for-bit (every len incl. 0), the streaming writers must frame identically to the builders, the aligned form must yield the same bits through a with_typed_slice_ref route at every (query length 0..64, buffer misalignment 0..7) with aligned payloads borrowed and never a misaligned borrow, and wrong element types/formats must be rejected.",
    "u128/i128/half floats only on bulk-only clauses; borrowing observed via the address handed to the route closure.",
    "DESIGN.md §4 C08"),
+ "C10": ("fault_enumeration",
+   "generated failure matrix (proptest) against the library's producers and a harness-owned scripted SVS server, crash-point enumeration by killing a child process at every commit-path probe hit, and SIGKILL at generated times; filesystem state as oracle",
+   "For ten pullers, six failure kinds (producer failure at chunk boundaries +-1, connection cut after every k-th response, rejecting verifier, over-long trailer, incompatible output), absent or pre-existing destinations and both compressions: a failure returns Err, leaves the destination byte-identical to its prior state and leaves no .svspart file; success publishes exactly the complete content (trailer stripped). A child process that runs the same pull and dies (_exit) at every probe hit before the rename leaves the destination unchanged, after it the complete content; SIGKILL at generated times leaves it unchanged or complete.",
+   "Crash points are the verif-hooks probes on the commit path plus unhooked SIGKILLs; power-loss durability of sync_all is not observable.",
+   "DESIGN.md §4 C10"),
  "C11": ("exploration",
    "model-based testing: bounded-exhaustive operation sequences plus proptest random histories against a u128 reference model checked after every step",
    "All operation sequences up to the tier's length over a 15-operation small-scope alphabet (exhaustive) and random histories up to 200 ops over 64-bit values with hostile acks run against TransferControl; offsets(), cancel state and the credit predicate (probed in the promised direction) must match the model after every step; a documented-loop producer is simulated under hostile acks.",
